@@ -58,8 +58,6 @@ public:
                              [this]() { resetOwnThread(); });
         }
 
-        QObject::connect(m_thread, &QThread::finished, m_thread, &QThread::deleteLater);
-
         m_worker = new Worker(/* handler (not parent!) */ this);
         m_worker->moveToThread(m_thread);
 
@@ -120,6 +118,10 @@ public:
         locker.relock();
 
         QTLOGGER_VERIF_POINT("oth.reset.before_clear");
+        // The thread object is released only now: deleting it as soon as the thread has finished
+        // (finished -> deleteLater) let the main event loop destroy it under a caller on another
+        // thread that was still inside wait()
+        m_thread->deleteLater();
         m_thread.clear();
         m_worker = nullptr;
         m_stopping = false;
